@@ -39,7 +39,8 @@ NOTES = ("Technique family: static analysis only. Every check parses the "
          "property-breaking changes (693 reported, two without verdict and "
          "one gap recorded), 16 "
          "mechanical variants and 696 hand-made behaviour-preserving "
-         "refactorings (all silent). Held-out first-run "
+         "refactorings (all silent; one run takes the property's own and "
+         "a fixed quarter of the others, SA_SELFVAL_ALL=1 all of them). Held-out first-run "
          "rates of the last two waves: 82 % of 87 unseen breaking changes "
          "reported, 7 % of 87 unseen refactorings noisy (DESIGN.md 7.4).")
 
